@@ -291,11 +291,18 @@ CLAIMED["C01"] = dict(
          "documented convention 0 where it diverges) and the F[0], F[1/4], F[1] lines of ffunctions.m, long "
          "decimal literals to 2 ulp; at the edge of each Taylor window a first-order error model bounds "
          "series truncation and closed-form cancellation below 1e-7; every regime a negative argument can "
-         "reach yields NaN. These hold for all arguments, not for sampled ones.",
-    note=TRUST + "NOT decided: the Pade approximants of dilog/clausen_2 (1e-13 claim) and the complex dilogarithm; "
-         "the three real regimes of f_PS against its complex definition; the large-argument expansions of "
-         "f_S and F3; rounding for x -> 0+ and x -> 1e12. R4 is an error model, not a proof of 1e-7. One "
-         "genuine defect (finite values for tiny negative arguments) was repaired.",
+         "reach yields NaN; the large-argument branches of f_S and F3 are the exact expansions at infinity. "
+         "For the kernels of gm2_dilog.cpp: every range-reduction branch of the real dilogarithm is an instance "
+         "of the functional equations (derivative identity, image interval, boundary value); the rational "
+         "kernels of Li2 on [0,1/2] and of Cl2 on (0,pi/2), [pi/2,pi], with their coefficients rounded to "
+         "double, are within 1.5e-15 / 6e-18 / 5e-17 of the series (rigorous bounds in exact rational "
+         "arithmetic); 2 pi enters the Cl2 reflection accurate to 1e-19; the complex series has the "
+         "Bernoulli coefficients and a remainder below 2e-15. These hold for all arguments, not for sampled ones.",
+    note=TRUST + "NOT decided: floating-point rounding of the kernel evaluation itself (a few ulp, not bounded here); "
+         "the geometry of the complex dilogarithm's transformations (|u| <= 1.26 is taken from the region "
+         "|z| <= 1, Re z <= 1/2); the three real regimes of f_PS against its complex definition; rounding for "
+         "x -> 0+ and x -> 1e12. R4 is an error model, not a proof of 1e-7. One genuine defect (finite values "
+         "for tiny negative arguments) was repaired.",
     ref="3 C01")
 
 CLAIMED["C02"] = dict(
